@@ -108,16 +108,23 @@ impl<'a> SpannedDiagnosticFormatter<'a> {
         let mut out = String::new();
         let (start_byte, end_byte) = self.nlc().span_line_bytes(span);
         // Produce an underline underneath a span which may cover multiple lines, and a message on the last line.
-        let mut source_lines = self.src[start_byte..end_byte].lines().peekable();
-        while let Some(source_line) = source_lines.next() {
+        // Unlike `lines()`, `split('\n')` yields every line the newline cache knows about (a trailing
+        // empty one included) and leaves each `\r` in place, so byte offsets can be derived from its pieces.
+        let mut source_lines = self.src[start_byte..end_byte].split('\n').peekable();
+        while let Some(raw_line) = source_lines.next() {
             let (line_start_byte, _) = self.nlc().span_line_bytes(span);
             let span_offset_from_start = span.start() - line_start_byte;
+            // Don't print the `\r` of a `\r\n` line ending.
+            let source_line = match raw_line.strip_suffix('\r') {
+                Some(l) if self.src[line_start_byte + raw_line.len()..].starts_with('\n') => l,
+                _ => raw_line,
+            };
 
             // An underline bounded by the current line.
             let underline_span = Span::new(
                 span.start(),
                 span.end()
-                    .min(span.start() + (source_line.len() - span_offset_from_start)),
+                    .min(span.start() + (raw_line.len() - span_offset_from_start)),
             );
             let (line_num, _) = self
                 .nlc()
@@ -149,7 +156,7 @@ impl<'a> SpannedDiagnosticFormatter<'a> {
             } else {
                 // Otherwise set next span to start at the beginning of the next line.
                 out.push('\n');
-                span = Span::new(line_start_byte + source_line.len() + 1, span.end())
+                span = Span::new(line_start_byte + raw_line.len() + 1, span.end())
             }
         }
 
